@@ -362,6 +362,7 @@ func parseGroup(mp *msgParser, tags []Tag) {
 				mp.msg.Body.add(dm)
 				// Cycle again with the new group.
 				dm = mp.msg.fields[mp.fieldIndex : mp.fieldIndex+1]
+				tags = searchTags
 				fields = getGroupFields(mp.msg, searchTags, mp.appDataDictionary)
 				continue
 			}
